@@ -92,6 +92,40 @@ ItemSet = simple_op('ItemSet', lambda h, name, v: 'item.set %s %s %s' % (h, U(na
 ItemRemove = simple_op('ItemRemove', lambda h, name: 'item.remove %s %s' % (h, U(name)), lambda m, h, name: m.item_remove(h, name))
 
 
+PARSE_DOCS = {
+    # name -> (text, structure for Model.parse_into); values are spelled so that their dumps are known
+    'containers': ("data_B\nsave_S\nsave_\ndata_n\n", [('B', [], [('S', [])]), ('n', [], [])]),
+    'items': ("data_B\n_A 'x'\n_e 1.5(2)\nsave_S\n_A 'x'\nsave_\n",
+              [('B', [('_A', {'k': 'char', 'q': 1, 't': 'x'}), ('_e', {'k': 'char', 'q': 0, 't': '1.5(2)'})], [('S', [('_A', {'k': 'char', 'q': 1, 't': 'x'})])])]),
+}
+
+
+class ParseInto(Op):
+    """cif_parse of a small document INTO an existing managed CIF (all errors accepted): blocks and frames that exist are
+    re-opened, items whose names exist are reported and ignored.  Whether the parser also removes packet-less loops of the
+    containers it visits is not documented: the model follows the implementation in that one respect."""
+
+    def lines(self):
+        ci, doc = self.args
+        return ['bytes.set B7 %s' % PARSE_DOCS[doc][0].encode().hex(), 'parse C%d B7' % ci, 'dump C%d' % ci]
+
+    def step(self, m, ans):
+        import copy
+        ci, doc = self.args
+        a = ans[1]
+        if not isinstance(a, dict) or a.get('rc') != OK:
+            m.parse_into(ci, PARSE_DOCS[doc][1], True)
+            return ['%r: cif_parse answered %r' % (self, a)]
+        trial = copy.deepcopy(m)
+        trial.parse_into(ci, PARSE_DOCS[doc][1], False)
+        keep = isinstance(ans[2], dict) and canon_cif_dump(ans[2]) == canon_cif_model(trial.cifs[ci])
+        errs = m.parse_into(ci, PARSE_DOCS[doc][1], not keep)
+        got = [e[0] for e in a.get('errs', [])]
+        if got != errs:
+            return ['%r: error codes %r reported, %r expected (re-opened containers and duplicate items)' % (self, got, errs)]
+        return []
+
+
 class StaleLoopCall(Op):
     """a call through a loop handle whose loop no longer exists: any error code, never success, nothing changes"""
 
